@@ -172,6 +172,53 @@ fn main() {
         Some("replay") => replay::cmd_replay(&args[1..]),
         Some("one") => cmd_one(&args[1..]),
         Some("determinism") => cmd_determinism(&args[1..]),
+        Some("probe-far-slot") => {
+            // directed probe (not a registered check): an equivocating leader of the very last window
+            let n = 5usize;
+            let real = 0usize;
+            let slot = u64::MAX - 1;
+            let leader = ((slot / 4) % n as u64) as usize;
+            println!("slot {slot} leader {leader}");
+            kernel::install_panic_hook(true);
+            kernel::begin_run(kernel::Decisions::generate(1), false, 2_000_000);
+            let rt = tokio::runtime::Builder::new_current_thread().enable_time().start_paused(true).build().expect("rt");
+            rt.block_on(async {
+                kernel::set_t0();
+                let stakes = vec![1u64; n];
+                let vals = keys::validator_infos(&stakes);
+                let netc = net::NetCore::new(n, net::NetCfg::benign(n));
+                tokio::spawn(net::pump(netc.clone()));
+                let _h = cluster::spawn_node(real, &vals, &stakes, &netc, cluster::DissemKind::Trivial);
+                let mut keep = Vec::new();
+                for i in 0..n {
+                    if i != real {
+                        keep.push(cluster::register_puppet(i, &netc));
+                    }
+                }
+                let kp = keys::keypair(leader);
+                let parent = (alpenglow::types::Slot::new(3), wire::synth_hash(3, 1));
+                let a = wire::simple_block(alpenglow::types::Slot::new(slot), parent.clone(), 1, 1, &kp.sk);
+                let b = wire::simple_block(alpenglow::types::Slot::new(slot), parent, 1, 2, &kp.sk);
+                tokio::time::sleep(std::time::Duration::from_millis(200)).await;
+                {
+                    let mut c = netc.lock().unwrap();
+                    for sh in a.shreds[0].iter().take(40) {
+                        c.inject(net::port_of(leader, net::Iface::Dissem), net::port_of(real, net::Iface::Dissem), wire::shred_bytes(sh.as_shred()), Some(1));
+                    }
+                    for sh in b.shreds[0].iter().take(3) {
+                        c.inject(net::port_of(leader, net::Iface::Dissem), net::port_of(real, net::Iface::Dissem), wire::shred_bytes(sh.as_shred()), Some(5));
+                    }
+                }
+                tokio::time::sleep(std::time::Duration::from_millis(3000)).await;
+                let _ = keep;
+            });
+            let (_, panics) = kernel::end_run();
+            for p in &panics {
+                println!("PANIC {} @ {} via {:?}", p.message, p.location, p.via_repo);
+            }
+            println!("panics: {}", panics.len());
+            0
+        }
         Some("probe-heavy-vote") => {
             // directed probe (not a registered check): a gap slot closed by one heavy notar vote that
             // crosses 60 % and 80 % at once
